@@ -245,6 +245,13 @@ namespace GeographicLib {
       Math::sincosd(azi, calp, salp);
       return 1 / (calp * calp / m + salp * salp / n);
     }
+    // POS1: the end position is passed where a length is expected
+    static std::string Trim(const std::string& s) {
+      unsigned beg = 0, end = unsigned(s.size());
+      while (beg < end && s[beg] == ' ') ++beg;
+      while (beg < end && s[end - 1] == ' ') --end;
+      return std::string(s, beg, end);
+    }
     // CP1: the northing clause is a copy of the easting clause with one name left behind
     static double Pad(double easting, double northing, double scale) {
       double w = 0;
